@@ -255,9 +255,11 @@ def repo_test_traces(ctx):
                       "a partition call made by the repository's own tests is rejected by WatershedTrace (level mode) at clause '%s' (line %d)" % (clause, line),
                       {"shape": list(shape)})
     if corrupted:
-        if not any(tid == len(items) and clause == "sweep-relation" for _, tid, clause, _ in rej):
-            raise MachineryError("level-mode trace validation accepted a corrupted sweep (binding lost)")
-        acc -= 0
+        # the corrupted copy of the first trace must be rejected (at the sweep, when the genuine first trace is accepted)
+        first_ok = not any(tid == 0 for _, tid, _, _ in rej)
+        bad_rej = [clause for _, tid, clause, _ in rej if tid == len(items)]
+        if not bad_rej or (first_ok and bad_rej != ["sweep-relation"]):
+            raise MachineryError("level-mode trace validation accepted a corrupted sweep (binding lost): %s" % bad_rej)
     ctx.replayed(acc)
     ctx.note("repo_test_traces_validated", acc)
 
